@@ -130,6 +130,20 @@ class FnModel:
                         self._mods.setdefault(lhs["did"], []).append(x)
         return self._mods
 
+    def _exclusive(self, p1, p2):
+        """offsets p1 and p2 lie in the two different branches of one if statement: no path runs through both (within one iteration)"""
+        if getattr(self, "_ifs", None) is None:
+            self._ifs = []
+            for x in walk(self.body):
+                if x.get("k") == "IfStmt":
+                    cc = [y for y in kids(x) if y.get("k") != "DeclStmt"]
+                    if len(cc) == 3 and all(c_.get("b") is not None and c_.get("e") is not None for c_ in cc[1:]):
+                        self._ifs.append((cc[1]["b"], cc[1]["e"], cc[2]["b"], cc[2]["e"]))
+        for tb, te, eb, ee in self._ifs:
+            if (tb <= p1 <= te and eb <= p2 <= ee) or (tb <= p2 <= te and eb <= p1 <= ee):
+                return True
+        return False
+
     def _loops(self):
         if getattr(self, "_loopnodes", None) is None:
             self._loopnodes = [x for x in walk(self.body) if x.get("k") in ("ForStmt", "WhileStmt", "DoStmt", "CXXForRangeStmt") and x.get("b") is not None and x.get("e") is not None]
@@ -201,10 +215,10 @@ class FnModel:
                         for m_ in self._mod_sites().get(y["did"], []):
                             if m_.get("b") is None:
                                 continue
-                            if d["e"] < m_["b"] < ub:
-                                stale = True
+                            if d["e"] < m_["b"] and m_.get("e", m_["b"]) < ub and not self._exclusive(m_["b"], ub):
+                                stale = True          # (an assignment whose right-hand side IS this use has not happened yet)
                             for L_ in self._loops():
-                                if L_["b"] <= m_["b"] <= L_["e"] and L_["b"] <= ub <= L_["e"] and not (L_["b"] <= d["b"] <= L_["e"]):
+                                if L_["b"] <= m_["b"] <= L_["e"] and L_["b"] <= ub <= L_["e"] and not (L_["b"] <= d["b"] <= L_["e"]) and not (m_["b"] <= ub <= m_.get("e", m_["b"])):
                                     stale = True
                         if stale:
                             # (`@old`: the value at an earlier binding; no line number, sibling functions are compared by these texts)
